@@ -76,7 +76,7 @@ def only_bad(outcome):
     return outcome in ("panic", "cut", "unsupported")
 
 
-def explore_block(O, N, end_token=None, first_class=None, nsig=2, keep=(), fixed=(), keep_outcomes=None):
+def explore_block(O, N, end_token=None, first_class=None, nsig=2, keep=(), fixed=(), keep_outcomes=None, suffix=()):
     m = O.mir
     fn = O.find("::parse_stmt_block")
     eng = O.engine()
@@ -92,7 +92,7 @@ def explore_block(O, N, end_token=None, first_class=None, nsig=2, keep=(), fixed
     eng.max_recursion = N + 2
     eng.keep_events(r"from_str_radix", r"HashMap::", r"Entry::", r"FramedSet::", r"FuncTable::get", r"BinOpTree::add",
                     r"<Expr as From>::from", r"to_string", *keep)
-    ts = TokenStream(m, N, fixed=fixed)
+    ts = TokenStream(m, N, fixed=fixed, suffix=suffix)
     ts.install(eng)
     eng.max_visits = ts.n + 4
     eng.max_recursion = ts.n + 2
